@@ -43,7 +43,8 @@ RULE = ("part A case = (component history, parent history, pin assignment); non-
         "choice. Part B case = (dependency digraph, supply order); non-trivial when there is at least one dependency "
         "between present repositories.")
 ASSUMPTIONS = [
-    "component build numbers increase along the component history; one standard build tag per build",
+    "component build numbers increase along the component history; build tags build_<n>_release_X_Y_success, or "
+    "build_<n>_master_success with major.minor in the built commit's VERSION file (minor changing at most once)",
     "the pinned component version names an existing component build and never decreases along a parent edge",
     "commit times of both repositories within one day, or (groups with time levels) spread over days with every "
     "parent commit newer than the oldest report-related component build minus one day (the component cut-off window)",
@@ -51,7 +52,8 @@ ASSUMPTIONS = [
     "a component build that lists no commit of its own (merge of two built side lines) may or may not be recorded; "
     "if it is, only at a first parent build that ships it",
 ]
-REQUIRED_FEATURES = ["A:parent-pins-two-components", "A:both-components-have-shipped-report-builds",
+REQUIRED_FEATURES = ["A:component-version-from-VERSION-file", "A:VERSION-changes-between-report-related-component-builds",
+                     "A:build-made-after-VERSION-change-is-shipped", "A:parent-pins-two-components", "A:both-components-have-shipped-report-builds",
                      "A:commit-times-spread-over-days", "A:oldest-report-build-in-later-sorted-component-branch",
                      "A:shipping-parent-build-days-before-first-branch-report-builds", "A:component-merge", "A:side-line-build-shipped-after-main-line-build",
                      "A:side-line-shares-ancestor-build-with-shipped-main-line",
@@ -99,6 +101,17 @@ def _merge_comps(n):
 
 def _merge_full_comps(n):
     return [c for c in _merge_comps(n) if len(c["tags"]) == n]
+
+
+def _version_file_comps(n_max):
+    """Linear components on master whose build tags do not encode the version (build_<n>_master_success): major.minor
+    is read from the VERSION file of the built commit; the saved minor never decreases along the history (0 -> 1)."""
+    out = []
+    for comp in _linear_comps(n_max):
+        n = len(comp["parents"])
+        for k in range(n + 1):                      # commits 1..k say minor 0, the rest minor 1
+            out.append(dict(comp, heads=[["master", n]], minors=[0] * k + [1] * (n - k)))
+    return out
 
 
 def _twice_built_comps(n_max, d_max):
@@ -180,6 +193,7 @@ _A_GROUPS = {
         ("twice3/p2", ("twice", 3), (1, 2), (PB1, PB2), True, 1, 24, False, "single"),
         ("merge4full/p2b1", ("merge-full", 4), (1, 2), (PB1,), True, 0, 24, False, "single"),
         ("fork3days/p2b1", ("small-fork", 3), (1, 2), (PB1,), True, 0, 24, False, "levels"),
+        ("vfile3/p2b1", ("version-file", 3), (1, 2), (PB1,), True, 0, 16, False, "single"),
     ],
     "thorough": [
         ("lin4/p2", ("linear", 4), (1, 2), (PB1, PB2), True, 2, 32, True, "repeat"),
@@ -196,6 +210,7 @@ _A_GROUPS = {
         ("fork3days/p2", ("small-fork", 3), (1, 2), (PB1, PB2), True, 1, 32, False, "levels"),
         ("fork3days/p3b1", ("small-fork", 3), (3,), (PB1,), False, 0, 48, False, "levels"),
         ("lin3days/p2", ("linear", 3), (1, 2), (PB1, PB2), True, 1, 16, False, "levels"),
+        ("vfile3/p3", ("version-file", 3), (1, 2, 3), (PB1, PB2), False, 1, 64, False, "single"),
     ],
 }
 _COMPS = {}
@@ -212,6 +227,8 @@ def _comps(fam):
             _COMPS[fam] = _linear_comps(n, n_min=n, full_only=True)
         elif kind == "small-fork":
             _COMPS[fam] = _small_fork_comps()
+        elif kind == "version-file":
+            _COMPS[fam] = _version_file_comps(n)
         elif kind == "merge":
             _COMPS[fam] = _merge_comps(n)
         elif kind == "merge-full":
@@ -477,6 +494,14 @@ def _features_A(case, info):
                 f.add("A:shipping-parent-build-days-before-first-branch-report-builds")
         if any(plv[pc - 1] < lv[key[1] - 1] for key, items in req.items() for _pb, _l, pc in items):
             f.add("A:parent-build-older-than-component-build-it-ships")
+    if comp.get("minors"):
+        f.add("A:component-version-from-VERSION-file")
+        mins = comp["minors"]
+        rb = sorted(c for _b, c in req if c in set(comp["tags"]))
+        if len({mins[c - 1] for c in rb}) > 1:
+            f.add("A:VERSION-changes-between-report-related-component-builds")
+            if any(mins[key[1] - 1] != mins[rb[0] - 1] and items for key, items in req.items()):
+                f.add("A:build-made-after-VERSION-change-is-shipped")
     if case.get("comp2") is not None:
         f.add("A:parent-pins-two-components")
         if any(req.values()) and any(info.get("req2", {}).values()):
